@@ -2,8 +2,11 @@
    Transcribes cache/repo_cache.go (lock = repoIsAvailable ; Create ; Write, Close), util/process.IsRunning,
    and the command wrapper of commands/execenv/loading.go (LoadBackend / LoadBackendEnsureUser / CloseBackend),
    the interrupt cleaner (util/interrupt) and the webui command's own teardown.
-   Processes are numbers. The lock file is absent, holds a pid, or is "torn": created but still empty, which
-   is what lock() leaves between LocalStorage().Create and f.Write. *)
+   Processes are numbers. The lock file is absent, holds a pid, or is "torn": created but still empty.
+   The code writes the pid to a temporary file and renames it (Create, then Write = rename), so no step of the
+   protocol produces a torn lock; an empty lock file found on disk is cleaned like a stale one. The pinned tree
+   created the lock file in place and wrote the pid in a second step, and took an empty file for an error: those
+   two steps are kept as TestPinned / CreatePinned for the refutations. *)
 From Coq Require Import List Arith Bool Lia.
 Import ListNotations.
 
@@ -14,13 +17,14 @@ Record st := mkst {
   dead : list nat;          (* processes that are gone (exited, killed); a pid is never reused *)
   holders : list nat;       (* processes whose RepoCache is open (lock() returned nil, Close not yet run) *)
   ready : list nat;         (* passed repoIsAvailable, file not yet created *)
-  created : list nat        (* created the (empty) file, pid not yet written *)
+  created : list nat        (* wrote the temporary file, not yet renamed (pinned: created the empty lock file) *)
 }.
 Definition st0 := mkst None [] [] [] [].
 Definition mem (p : nat) (l : list nat) := existsb (Nat.eqb p) l.
 Definition rm (p : nat) (l : list nat) := filter (fun x => negb (Nat.eqb x p)) l.
 
-Inductive ev := Test (p : nat) | Create (p : nat) | Write (p : nat) | Close (p : nat) | Kill (p : nat) | Fail (p : nat).
+Inductive ev := Test (p : nat) | Create (p : nat) | Write (p : nat) | Close (p : nat) | Kill (p : nat) | Fail (p : nat)
+              | TestPinned (p : nat) | CreatePinned (p : nat).
 Inductive out := Granted | Refused (holder : nat) | Corrupt | Done | Ignored.
 
 (* RepoCache.Close as called by a process that holds the cache: the lock file is removed *)
@@ -32,20 +36,18 @@ Definition kill1 (s : st) (p : nat) : st * out :=
 (* RepoCache.Close as written in the code, called by a process that does NOT hold: the file is removed unconditionally *)
 Definition unlink (s : st) : st := mkst None (dead s) (holders s) (ready s) (created s).
 
-(* repoIsAvailable (Test), then Create, then Write: three separate steps, as in repo_cache.go *)
+(* repoIsAvailable (Test), then Create (temporary file), then Write (rename): three separate steps, as in repo_cache.go *)
+Definition test_free (s : st) (p : nat) : st * out := (mkst None (dead s) (holders s) (p :: ready s) (created s), Granted).
 Definition step (s : st) (e : ev) : st * out :=
   match e with
   | Test p =>
       match lockf s with
-      | None => (mkst None (dead s) (holders s) (p :: ready s) (created s), Granted)
-      | Some (LPid q) =>
-          if mem q (dead s)
-          then (mkst None (dead s) (holders s) (p :: ready s) (created s), Granted)   (* stale lock cleaned *)
-          else (s, Refused q)
-      | Some LTorn => (s, Corrupt)                                                  (* strconv.Atoi("") fails *)
+      | None => test_free s p
+      | Some (LPid q) => if mem q (dead s) then test_free s p (* stale lock cleaned *) else (s, Refused q)
+      | Some LTorn => test_free s p                            (* empty lock file: nobody holds it, cleaned *)
       end
   | Create p => if mem p (ready s)
-                then (mkst (Some LTorn) (dead s) (holders s) (rm p (ready s)) (p :: created s), Done)
+                then (mkst (lockf s) (dead s) (holders s) (rm p (ready s)) (p :: created s), Done)
                 else (s, Ignored)
   | Write p => if mem p (created s)
                then (mkst (Some (LPid p)) (dead s) (p :: holders s) (ready s) (rm p (created s)), Done)
@@ -53,7 +55,17 @@ Definition step (s : st) (e : ev) : st * out :=
   | Close p => close1 s p
   | Kill p => kill1 s p
   | Fail p => kill1 (fst (close1 s p)) p      (* an error path that cleans up: close if open, then exit *)
+  | TestPinned p =>
+      match lockf s with
+      | None => test_free s p
+      | Some (LPid q) => if mem q (dead s) then test_free s p else (s, Refused q)
+      | Some LTorn => (s, Corrupt)                              (* strconv.Atoi("") fails *)
+      end
+  | CreatePinned p => if mem p (ready s)
+                then (mkst (Some LTorn) (dead s) (holders s) (rm p (ready s)) (p :: created s), Done)
+                else (s, Ignored)
   end.
+Definition fixed_ev (e : ev) : bool := match e with TestPinned _ | CreatePinned _ => false | _ => true end.
 
 Definition run_from (s : st) (es : list ev) := fold_left (fun s e => fst (step s e)) es s.
 Definition run (es : list ev) := run_from st0 es.
@@ -142,7 +154,7 @@ Proof. intros D. unfold inv. cbn. split; [reflexivity|]. split; [reflexivity|]. 
 Lemma open_atomic_cases s p : ready s = [] -> created s = [] ->
   open_atomic s p = match lockf s with
                     | Some (LPid q) => if mem q (dead s) then (granted s p, Granted) else (s, Refused q)
-                    | Some LTorn => (s, Corrupt)
+                    | Some LTorn => (granted s p, Granted)
                     | None => (granted s p, Granted)
                     end.
 Proof.
@@ -236,6 +248,32 @@ Proof.
   cbn. unfold close1. cbn. rewrite mem_self. cbn. rewrite rm_self. unfold open_atomic. cbn.
   rewrite ?mem_self, ?Nat.eqb_refl. cbn. rewrite ?Nat.eqb_refl. cbn. auto.
 Qed.
+
+(* an empty lock file (left by the pinned tree's two-step write) is cleaned like a stale one *)
+Lemma torn_open s p : inv s -> lockf s = Some LTorn ->
+  snd (open_atomic s p) = Granted /\ lockf (fst (open_atomic s p)) = Some (LPid p) /\ In p (holders (fst (open_atomic s p))).
+Proof. intros (R & C & _) L. rewrite (open_atomic_cases s p R C), L. cbn. auto. Qed.
+
+(* no step of the protocol, in any interleaving, produces a lock file without a pid *)
+Lemma no_torn_step s e : fixed_ev e = true -> lockf (fst (step s e)) = Some LTorn -> lockf s = Some LTorn.
+Proof.
+  Ltac fin := cbn; intros H; first [discriminate H | exact H | reflexivity].
+  destruct e as [p|p|p|p|p|p|p|p]; cbn; try discriminate; intros _.
+  - destruct (lockf s) as [[q|]|] eqn:L; [destruct (mem q (dead s))| |]; unfold test_free; cbn; intros H;
+      first [discriminate H | reflexivity | rewrite L in H; discriminate H].
+  - destruct (mem p (ready s)); fin.
+  - destruct (mem p (created s)); fin.
+  - unfold close1. destruct (mem p (holders s)); fin.
+  - auto.
+  - unfold close1. destruct (mem p (holders s)); fin.
+Qed.
+Lemma no_torn_run es : forall s, forallb fixed_ev es = true -> lockf (run_from s es) = Some LTorn -> lockf s = Some LTorn.
+Proof.
+  induction es as [|e t IH]; intros s F H; cbn in *; auto.
+  apply andb_true_iff in F as [F1 F2]. apply (no_torn_step s e F1). apply IH; auto.
+Qed.
+Lemma no_torn es : forallb fixed_ev es = true -> lockf (run es) <> Some LTorn.
+Proof. intros F H. apply (no_torn_run es st0 F) in H. discriminate. Qed.
 
 (* ---------- the lock of a live process is never removed by anybody else ---------- *)
 Lemma dead_kill s p : dead (fst (kill1 s p)) = p :: dead s.
@@ -374,14 +412,15 @@ Proof.
 Qed.
 
 (* ---------- what the faithful models of the defective variants do ---------- *)
-Lemma toctou_refuted : exists es, holders (run es) = [2; 1] /\ dead (run es) = [].
+Lemma toctou_refuted : exists es, forallb fixed_ev es = true /\ holders (run es) = [2; 1] /\ dead (run es) = [].
 Proof. exists [Test 1; Test 2; Create 1; Write 1; Create 2; Write 2]. vm_compute. auto. Qed.
 Lemma removes_live_lock_refuted : exists es, holders (run es) = [2] /\ lockf (run es) = None /\ dead (run es) = [].
 Proof. exists [Test 1; Test 2; Create 1; Write 1; Create 2; Write 2; Close 1]. vm_compute. auto. Qed.
-(* a process that dies between Create and Write leaves a lock nobody can ever get past *)
-Lemma torn_lock_refuted : exists es, dead (run es) = [1] /\ holders (run es) = [] /\
-  forall p, open_atomic (run es) p = (run es, Corrupt).
-Proof. exists [Test 1; Create 1; Kill 1]. vm_compute. auto. Qed.
+(* the pinned tree: a process that dies between creating the lock file and writing its pid leaves a lock
+   that refuses everybody, for ever (the state does not change) *)
+Lemma torn_lock_refuted : exists es, dead (run es) = [1] /\ holders (run es) = [] /\ lockf (run es) = Some LTorn /\
+  forall p, step (run es) (TestPinned p) = (run es, Corrupt).
+Proof. exists [TestPinned 1; CreatePinned 1; Kill 1]. vm_compute. auto. Qed.
 (* the pinned wrapper leaves the lock of a finished command behind on three paths *)
 Lemma pinned_leaks_refuted :
   lockf (fst (command pinned FEnsureUser PreErr st0 1)) = Some (LPid 1) /\
